@@ -70,7 +70,10 @@ def write_cfg(path, spec="Spec", constants=None, invariants=(), properties=(), v
     if constants:
         lines.append("CONSTANTS")
         for k, v in constants.items():
-            lines.append("  %s = %s" % (k, tla_value(v)))
+            if isinstance(v, Sub):
+                lines.append("  %s <- %s" % (k, v.name))
+            else:
+                lines.append("  %s = %s" % (k, tla_value(v)))
     if invariants:
         lines.append("INVARIANTS " + " ".join(invariants))
     if properties:
@@ -88,6 +91,15 @@ def write_cfg(path, spec="Spec", constants=None, invariants=(), properties=(), v
     lines.append("CHECK_DEADLOCK " + ("TRUE" if deadlock else "FALSE"))
     with open(path, "w") as f:
         f.write("\n".join(lines) + "\n")
+
+
+class Sub:
+    """cfg substitution  K <- DefinedOperator  (needed e.g. for sets with negative numbers)"""
+    def __init__(self, name):
+        self.name = name
+
+    def __repr__(self):
+        return "<-" + self.name
 
 
 def tla_value(v):
